@@ -243,7 +243,8 @@ func (k Keeper) UpdateLPRewards(ctx sdk.Context) error {
 		if pool.EnableEdenRewards {
 			newEdenAllocatedForPool = poolShareEdenEnable.MulInt(lpsEdenAmount)
 			newEdenAllocatedForPool = math.LegacyMinDec(newEdenAllocatedForPool, poolMaxEdenAmount)
-			if newEdenAllocatedForPool.IsPositive() {
+			// an allocation below one base unit mints nothing: a zero coin is not a valid amount to mint
+			if newEdenAllocatedForPool.TruncateInt().IsPositive() {
 				err = k.commitmentKeeper.MintCoins(ctx, types.ModuleName, sdk.Coins{sdk.NewCoin(ptypes.Eden, newEdenAllocatedForPool.TruncateInt())})
 				if err != nil {
 					return err
